@@ -3,6 +3,7 @@ import Proofs.GAEFlat
 import Proofs.GAEMatrix
 import Proofs.GAEGenEq
 import Proofs.FlattenGenEq
+import Proofs.RolloutGenEq
 
 /-!
 # C17 — advantage estimation follows its definition and respects episode boundaries; every
@@ -526,4 +527,217 @@ example : gather [5, 0, 5, 2] (ppoFlatten 2 3 (fun t e => (t, e))) = [some (1,2)
 example : gather [7] (ppoFlatten 2 3 (fun t e => (t, e))) = [none] := by decide
 example : [2, 0, 3, 1].Perm (List.range 4) := by decide
 
+end GAE
+
+namespace GAE
+
+/-! ## source translation: the rollout collection (what `learn()` receives)
+
+`harness/py2lean_rollout.py` translates the step loop of `train_on_policy` and `train_multi_agent_on_policy` (the
+statements that call `get_action` and `env.step`, compute `next_done = np.logical_or(terminated, truncated)`, append to
+the six lists, carry `state = next_state`, `done = next_done`, and build the experiences tuple) into
+`RolloutGen.On.collect` / `RolloutGen.MaOn.collect`: from the observation on entry and a stream of replies (policy outputs
++ environment reply per step, one environment column of one agent) to the eight-tuple handed to `learn`.
+TRUNCATION as coded: `done = terminated OR truncated` — a time-limit truncation cuts the bootstrap exactly like a
+termination (the value of the state after a truncation is NOT bootstrapped).  `dones[0]` is `0` at the start of EVERY
+learn step as coded (`done = np.zeros(num_envs)` inside the learn loop, not carried over); the GAE loop never reads it
+(`C17_source_translation_rollout_first_flag_unread`). -/
+section source_translation_rollout
+open RolloutGen GAEGen
+variable {σ α : Type}
+
+/-- every generated definition equals the model: the step for every state and reply, the collection for every stream -/
+theorem C17_source_translation_rollout_equalities (st u6 : σ) (u7 : Bool) (xs : List (Reply σ α))
+    (s : On.St σ α) (s' : MaOn.St σ α) (x : Reply σ α) :
+    onSt (On.step s x) = collectStep (onSt s) (ofGenOn x) ∧
+    maSt (MaOn.step s' x) = collectStep (maSt s') (ofGen x) ∧
+    On.collect st u6 u7 xs = (collect false st u6 u7 (xs.map ofGenOn)).tuple ∧
+    MaOn.collect st u6 u7 xs = (collect false st u6 u7 (xs.map ofGen)).tuple :=
+  ⟨gen_on_step_eq s x, gen_ma_step_eq s' x, gen_on_collect_eq st u6 u7 xs, gen_ma_collect_eq st u6 u7 xs⟩
+
+/-- **`states[t]` is the observation the policy acted on at step `t`**: the observation `get_action` is called with in
+    a step is exactly the entry that step appends to `states` (next to the action, log-prob and value `get_action`
+    returned for it and the reward `env.step` returned for that action), in both training functions -/
+theorem C17_source_translation_rollout_acted_state_recorded (s : On.St σ α) (s' : MaOn.St σ α) (x : Reply σ α) :
+    (On.step s x).e0 = s.e0 ++ [On.acted s] ∧ (On.step s x).e1 = s.e1 ++ [x.pi0] ∧
+    (On.step s x).e3 = s.e3 ++ [x.reward] ∧ (On.step s x).e5 = s.e5 ++ [x.pi3] ∧
+    (MaOn.step s' x).e0 = s'.e0 ++ [MaOn.acted s'] ∧ (MaOn.step s' x).e1 = s'.e1 ++ [x.pi0] ∧
+    (MaOn.step s' x).e3 = s'.e3 ++ [x.reward] ∧ (MaOn.step s' x).e5 = s'.e5 ++ [x.pi3] :=
+  ⟨rfl, rfl, rfl, rfl, rfl, rfl, rfl, rfl⟩
+
+/-- what the model collection guarantees, in the form both restatements below use -/
+theorem C17_rollout_alignment (d0 : Bool) (st ns : σ) (nd : Bool) (xs : List (StepReply σ α)) :
+    let R := collect d0 st ns nd xs
+    (R.states.length = xs.length ∧ R.rewards.length = xs.length ∧ R.dones.length = xs.length ∧
+      R.values.length = xs.length) ∧
+    (0 < xs.length → R.dones[0]? = some d0 ∧ R.states[0]? = some st) ∧
+    (∀ t, t + 1 < xs.length → R.dones[t + 1]? = xs[t]?.map StepReply.flag ∧
+      R.states[t + 1]? = xs[t]?.map StepReply.after) ∧
+    (∀ t, t + 1 = xs.length → some R.nextDone = xs[t]?.map StepReply.flag ∧ some R.nextState = xs[t]?.map (·.obs)) ∧
+    (∀ t : Nat, R.rewards[t]? = xs[t]?.map (·.reward) ∧ R.values[t]? = xs[t]?.map (·.value) ∧
+      R.actions[t]? = xs[t]?.map (·.action) ∧ R.logps[t]? = xs[t]?.map (·.logp)) := by
+  intro R
+  obtain ⟨_, h2, h3, h4, _, h6, _, _⟩ := collect_spec d0 st ns nd xs
+  have hd := collect_dones d0 st ns nd xs
+  have hs := collect_states d0 st ns nd xs
+  refine ⟨⟨hs.1, by simp [R, h4], hd.1, by simp [R, h6]⟩, fun h => ⟨hd.2.1 h, hs.2.1 h⟩, fun t ht => ?_, fun t ht => ?_,
+    fun t => ?_⟩
+  · rw [← List.getElem?_map, ← List.getElem?_map]; exact ⟨hd.2.2 t ht, hs.2.2 t ht⟩
+  · rw [← List.getElem?_map, ← List.getElem?_map]; exact collect_next_done d0 st ns nd xs t ht
+  · simp only [R, h2, h3, h4, h6, List.getElem?_map, and_self]
+
+/-- **`dones[t]` is the flag produced by step `t − 1`, over the generated collection (single agent)**: the six lists
+    have one entry per reply; `dones[0] = 0` and `states[0]` is the observation on entry; `dones[t + 1]` is
+    `terminated OR truncated` of the reply to step `t` and `states[t + 1]` its observation; `next_done` / `next_state`
+    are flag / observation of the LAST reply; `rewards[t]`, `values[t]`, `actions[t]`, `log_probs[t]` belong to step `t` -/
+theorem C17_source_translation_rollout_alignment (st u6 : σ) (u7 : Bool) (xs : List (Reply σ α)) :
+    let E := On.collect st u6 u7 xs
+    (E.1.length = xs.length ∧ E.2.2.2.1.length = xs.length ∧ E.2.2.2.2.1.length = xs.length ∧
+      E.2.2.2.2.2.1.length = xs.length) ∧
+    (0 < xs.length → E.2.2.2.2.1[0]? = some false ∧ E.1[0]? = some st) ∧
+    (∀ t, t + 1 < xs.length → E.2.2.2.2.1[t + 1]? = xs[t]?.map genFlag ∧ E.1[t + 1]? = xs[t]?.map (·.obs)) ∧
+    (∀ t, t + 1 = xs.length → some E.2.2.2.2.2.2.2 = xs[t]?.map genFlag ∧ some E.2.2.2.2.2.2.1 = xs[t]?.map (·.obs)) ∧
+    (∀ t : Nat, E.2.2.2.1[t]? = xs[t]?.map (·.reward) ∧ E.2.2.2.2.2.1[t]? = xs[t]?.map (·.pi3) ∧
+      E.2.1[t]? = xs[t]?.map (·.pi0) ∧ E.2.2.1[t]? = xs[t]?.map (·.pi1)) := by
+  intro E
+  have h := C17_rollout_alignment false st u6 u7 (xs.map ofGenOn)
+  simp only [List.length_map, List.getElem?_map, Option.map_map] at h
+  have e : E = (collect false st u6 u7 (xs.map ofGenOn)).tuple := gen_on_collect_eq st u6 u7 xs
+  rw [e]
+  exact h
+
+/-- the same for one agent of the multi-agent loop; there `states[t + 1]` is the observation of the loop's own
+    `env.reset()` when it reset the (non-vectorised) environment after step `t` -/
+theorem C17_source_translation_rollout_alignment_multi_agent (st u6 : σ) (u7 : Bool) (xs : List (Reply σ α)) :
+    let E := MaOn.collect st u6 u7 xs
+    (E.1.length = xs.length ∧ E.2.2.2.1.length = xs.length ∧ E.2.2.2.2.1.length = xs.length ∧
+      E.2.2.2.2.2.1.length = xs.length) ∧
+    (0 < xs.length → E.2.2.2.2.1[0]? = some false ∧ E.1[0]? = some st) ∧
+    (∀ t, t + 1 < xs.length → E.2.2.2.2.1[t + 1]? = xs[t]?.map genFlag ∧
+      E.1[t + 1]? = xs[t]?.map (fun x => x.reset.getD x.obs)) ∧
+    (∀ t, t + 1 = xs.length → some E.2.2.2.2.2.2.2 = xs[t]?.map genFlag ∧ some E.2.2.2.2.2.2.1 = xs[t]?.map (·.obs)) ∧
+    (∀ t : Nat, E.2.2.2.1[t]? = xs[t]?.map (·.reward) ∧ E.2.2.2.2.2.1[t]? = xs[t]?.map (·.pi3) ∧
+      E.2.1[t]? = xs[t]?.map (·.pi0) ∧ E.2.2.1[t]? = xs[t]?.map (·.pi1)) := by
+  intro E
+  have h := C17_rollout_alignment false st u6 u7 (xs.map ofGen)
+  simp only [List.length_map, List.getElem?_map, Option.map_map] at h
+  have e : E = (collect false st u6 u7 (xs.map ofGen)).tuple := gen_ma_collect_eq st u6 u7 xs
+  rw [e]
+  exact h
+
+/-- **the convention the GAE loop relies on, over the generated collection**: what the loop reads as "done after step
+    `t`" (`dones[t + 1]`, `next_done` for the last step — `doneAt … (t + 1)`) on the column built from the generated
+    eight-tuple is `terminated OR truncated` of the reply to step `t`, for both training functions -/
+theorem C17_source_translation_rollout_boundary (st u6 : σ) (u7 : Bool) (xs : List (Reply σ α)) (critic : σ → Rat)
+    (t : Nat) (ht : t < xs.length) :
+    some (doneAt (tupleCol (On.collect st u6 u7 xs) critic) (t + 1)) = xs[t]?.map genFlag ∧
+    some (doneAt (tupleCol (MaOn.collect st u6 u7 xs) critic) (t + 1)) = xs[t]?.map genFlag := by
+  rw [gen_on_collect_eq, gen_ma_collect_eq, tupleCol_tuple, tupleCol_tuple]
+  constructor
+  · rw [← flagsOf_on]; exact collect_doneAt false st u6 u7 _ critic t (by simpa using ht)
+  · rw [← flagsOf_ma]; exact collect_doneAt false st u6 u7 _ critic t (by simpa using ht)
+
+/-- **no reward or value from after the first done leaks into an advantage — generated collection ∘ generated GAE
+    loop**: if the reply to step `s` reports done (terminated OR truncated) in two streams that agree up to step `s`
+    (rewards and values up to and including `s`, flags before `s`), then the advantages and returns of every step
+    `t ≤ s` that the translated loop of `PPO.learn` computes from the rollout `train_on_policy` collects — and the
+    translated loop of `IPPO._learn_individual` from what `train_multi_agent_on_policy` collects — are the same for both
+    streams: whatever rewards, values, flags, observations, critic values and lengths follow step `s`, and whatever the
+    observations on entry are -/
+theorem C17_source_translation_rollout_no_leak (γ lam : Rat) (st u6 st' u6' : σ) (u7 u7' : Bool)
+    (xs xs' : List (Reply σ α)) (critic critic' : σ → Rat) (s : Nat) (hs : s < xs.length) (hs' : s < xs'.length)
+    (hd : xs[s]?.map genFlag = some true) (hd' : xs'[s]?.map genFlag = some true) (hag : GenStreamsAgree xs xs' s)
+    (t : Nat) (ht : t ≤ s) :
+    ((genPPO γ lam (tupleCol (On.collect st u6 u7 xs) critic)).1[t]?
+        = (genPPO γ lam (tupleCol (On.collect st' u6' u7' xs') critic')).1[t]? ∧
+      (genPPO γ lam (tupleCol (On.collect st u6 u7 xs) critic)).2[t]?
+        = (genPPO γ lam (tupleCol (On.collect st' u6' u7' xs') critic')).2[t]?) ∧
+    ((genIPPO γ lam (tupleCol (MaOn.collect st u6 u7 xs) critic)).1[t]?
+        = (genIPPO γ lam (tupleCol (MaOn.collect st' u6' u7' xs') critic')).1[t]? ∧
+      (genIPPO γ lam (tupleCol (MaOn.collect st u6 u7 xs) critic)).2[t]?
+        = (genIPPO γ lam (tupleCol (MaOn.collect st' u6' u7' xs') critic')).2[t]?) := by
+  have key : ∀ (k : Reply σ α → StepReply σ α), (∀ x, (k x).reward = x.reward) → (∀ x, (k x).value = x.pi3) →
+      (∀ x, (k x).flag = genFlag x) →
+      let c := (collect false st u6 u7 (xs.map k)).col critic
+      let c' := (collect false st' u6' u7' (xs'.map k)).col critic'
+      (t < c.T ∧ t < c'.T ∧ c.v.length = c.T ∧ c'.v.length = c'.T) ∧
+      adv γ lam c t = adv γ lam c' t ∧ ret γ lam c t = ret γ lam c' t := by
+    intro k hr hv hf c c'
+    have e3 : ∀ ys : List (Reply σ α), flagsOf (ys.map k) = ys.map genFlag := by
+      intro ys; unfold flagsOf; rw [List.map_map]; exact List.map_congr_left (fun x _ => hf x)
+    have hT := collect_T false st u6 u7 (xs.map k) critic
+    have hT' := collect_T false st' u6' u7' (xs'.map k) critic'
+    rw [List.length_map] at hT hT'
+    refine ⟨⟨by rw [hT.1]; omega, by rw [hT'.1]; omega, by rw [hT.1, hT.2], by rw [hT'.1, hT'.2]⟩, ?_⟩
+    exact collect_no_leak γ lam false st u6 st' u6' u7 u7' (xs.map k) (xs'.map k) critic critic' s
+      (by simpa using hs) (by simpa using hs') (by rw [e3, List.getElem?_map]; exact hd)
+      (by rw [e3, List.getElem?_map]; exact hd') (streamsAgree_of_gen k hr hv hf xs xs' s hag) t ht
+  have fin : ∀ c c' : Col, (t < c.T ∧ t < c'.T ∧ c.v.length = c.T ∧ c'.v.length = c'.T) →
+      adv γ lam c t = adv γ lam c' t → ret γ lam c t = ret γ lam c' t →
+      ((genPPO γ lam c).1[t]? = (genPPO γ lam c').1[t]? ∧ (genPPO γ lam c).2[t]? = (genPPO γ lam c').2[t]?) ∧
+      ((genIPPO γ lam c).1[t]? = (genIPPO γ lam c').1[t]? ∧ (genIPPO γ lam c).2[t]? = (genIPPO γ lam c').2[t]?) := by
+    intro c c' ⟨h1, h2, h3, h4⟩ ha hr
+    obtain ⟨⟨_, p1⟩, ⟨_, p2⟩⟩ := C17_source_translation_gae_is_recursion γ lam c
+    obtain ⟨⟨_, p1'⟩, ⟨_, p2'⟩⟩ := C17_source_translation_gae_is_recursion γ lam c'
+    obtain ⟨_, _, q⟩ := C17_source_translation_returns γ lam c h3
+    obtain ⟨_, _, q'⟩ := C17_source_translation_returns γ lam c' h4
+    rw [p1 t h1, p1' t h2, p2 t h1, p2' t h2, (q t h1).1, (q t h1).2, (q' t h2).1, (q' t h2).2, ha, hr]
+    exact ⟨⟨rfl, rfl⟩, rfl, rfl⟩
+  rw [gen_on_collect_eq, gen_on_collect_eq, gen_ma_collect_eq, gen_ma_collect_eq]
+  simp only [tupleCol_tuple]
+  obtain ⟨b1, a1, r1⟩ := key ofGenOn (fun _ => rfl) (fun _ => rfl) (fun _ => rfl)
+  obtain ⟨b2, a2, r2⟩ := key ofGen (fun _ => rfl) (fun _ => rfl) (fun _ => rfl)
+  exact ⟨(fin _ _ b1 a1 r1).1, (fin _ _ b2 a2 r2).2⟩
+
+theorem specAdv_first_flag (γ lam : Rat) (c : Col) (b : Bool) :
+    ∀ n t, specAdv γ lam { c with d := b :: c.d.tail } n t = specAdv γ lam c n t := by
+  intro n
+  induction n with
+  | zero => intro t; rfl
+  | succ n ih =>
+    intro t
+    have hd : doneAt { c with d := b :: c.d.tail } (t + 1) = doneAt c (t + 1) := by
+      unfold doneAt Col.T
+      cases c.d <;> simp
+    have hv : valAt { c with d := b :: c.d.tail } (t + 1) = valAt c (t + 1) := rfl
+    simp only [specAdv, delta, hd, hv, ih]
+
+/-- `dones[0]` (reset to zeros at the start of every learn step as coded, although the environment is not reset) is
+    never read by the advantage estimation: the advantages of two columns that differ only in `d[0]` are equal -/
+theorem C17_source_translation_rollout_first_flag_unread (γ lam : Rat) (c : Col) (b : Bool) (t : Nat) (ht : t < c.T) :
+    (genPPO γ lam { c with d := b :: c.d.tail }).1[t]? = (genPPO γ lam c).1[t]? := by
+  have hT : ({ c with d := b :: c.d.tail } : Col).T = c.T := rfl
+  rw [(C17_source_translation_gae_is_recursion γ lam _).1.2 t (by rw [hT]; exact ht),
+    (C17_source_translation_gae_is_recursion γ lam c).1.2 t ht]
+  unfold adv
+  rw [hT, specAdv_first_flag]
+
+/-! non-vacuity: a stream of three replies whose second step is TRUNCATED (not terminated), and a second stream that
+    agrees with it up to that step and differs afterwards (other reward, value, flags, one more step) -/
+def exReply (r v : Rat) (term trunc : Bool) (o : Nat) : Reply Nat Nat :=
+  { pi0 := 0, pi1 := 0, pi2 := 0, pi3 := v, obs := o, reward := r, term := term, trunc := trunc, reset := none }
+def exStream : List (Reply Nat Nat) := [exReply 1 (1/2) false false 11, exReply 2 1 false true 12, exReply 3 (3/2) false false 13]
+def exStream' : List (Reply Nat Nat) :=
+  [exReply 1 (1/2) false false 21, exReply 2 1 true false 22, exReply (-7) 9 true false 23, exReply 5 2 false false 24]
+
+-- the truncation of step 1 shows up as dones[2] (NOT dones[1]); next_done / next_state belong to the last reply
+example : (On.collect 10 0 true exStream).2.2.2.2.1 = [false, false, true] ∧
+    (On.collect 10 0 true exStream).2.2.2.2.2.2.2 = false ∧ (On.collect 10 0 true exStream).2.2.2.2.2.2.1 = 13 ∧
+    (On.collect 10 0 true exStream).1 = [10, 11, 12] := by
+  refine ⟨?_, ?_, ?_, ?_⟩ <;> decide +kernel
+example : (MaOn.collect 10 0 true exStream).2.2.2.2.1 = [false, false, true] := by decide +kernel
+-- the hypotheses of C17_source_translation_rollout_no_leak hold for s = 1 …
+example : exStream[1]?.map genFlag = some true ∧ exStream'[1]?.map genFlag = some true := by decide +kernel
+example : GenStreamsAgree exStream exStream' 1 := by
+  refine ⟨fun t ht => ?_, fun t ht => ?_⟩
+  · have : t = 0 ∨ t = 1 := by omega
+    rcases this with h | h <;> subst h <;> decide +kernel
+  · have : t = 0 := by omega
+    subst this; decide +kernel
+-- … and the advantages of steps 0 and 1 are the same concrete numbers for both streams and any critic, step 2 differs
+example : (genPPO (1/2) (3/4) (tupleCol (On.collect 10 0 true exStream) (fun _ => 4))).1 = [11/8, 1, 7/2] ∧
+    ((genPPO (1/2) (3/4) (tupleCol (On.collect 20 0 true exStream') (fun _ => -3))).1).take 2 = [11/8, 1] := by
+  decide +kernel
+
+end source_translation_rollout
 end GAE
